@@ -43,8 +43,11 @@ Definition central_stranded (c : wcase) : bool :=
    went to the wrong waiter.  (A central-queue push followed by a claimAndWakeOne that found no registered sleeper legitimately leaves
    the task to the spinning workers' polls, which these scripts do not play; the central paths are judged end-to-end on a real pool;
    [central_stranded] is reported in the evidence only.) *)
+(* The premise of C07 is part of the verdict: every task was pushed while ALL workers were parked ([submitted_to_parked_pool], read off
+   the model run of the same schedule, which the lockstep comparison ties to the implementation's trace).  A submission that races with a
+   worker which is still on its way into the futex is outside the property (see the note on the "observe-then-bump" window in props/C07.py). *)
 Definition pending_unreachable (c : wcase) : bool :=
-  (i_status c =? 1) && proto_case c && existsb (ring_stranded c) (seq O (c_n (w_cfg c))).
+  (i_status c =? 1) && proto_case c && existsb (ring_stranded c) (seq O (c_n (w_cfg c))) && submitted_to_parked_pool c.
 
 (* a masked wake whose count does not cover a whole group: the ring fast path's wake of popcount(mask /\ [0,count)) ARBITRARY
    waiters of the shared group futex *)
